@@ -16,22 +16,24 @@ Representation choices (none is read by the modelled code paths in a way that ch
 * an exchange records what was written to its `ResponseWriter` (`out`), what was written while the
   writer fails (`lost`: reaches nobody) and how many more writes succeed (`budget`).
 * `store` is the *abstract* event store of C20: per stream the full append log (`none` = the empty
-  priming payload).  It is never purged here (C08 assumes the store keeps its contract; C20 proves
-  the in-memory store either replays exactly or reports the purge).
-* ghost fields, never read by `step`: `Item.ctx`, `Exch.stream`, `Exch.from`, `Stream.calls`, `Conn.hist`.
+  priming payload) — the ground truth; `purged` says how many entries of each log the store has evicted
+  (label EVICT, at any time, any prefix); `After` from an evicted position fails (`ErrEventsPurged`) and the
+  GET is answered 400 (C20 proves the in-memory store either replays exactly or reports the purge).
+* ghost fields, never read by `step`: `Item.ctx`, `Exch.stream`, `Exch.from`, `Stream.calls`, `Conn.hist`, `Conn.born`.
 
 Deviations from Appendix E (all recorded because the differential run asked for them):
 * labels that open an exchange carry a write `budget` (WFAIL at a chosen point of the exchange, incl. "from the
   start" and "in the middle of a replay"); WRITE carries `ctxNew` (the write's context has version ≥ 2026-07-28:
   no store append, no event id — C08 is about contexts before that version);
-* `Write`'s two critical sections (routing under `c.mu`, append+deliver under `s.mu`) are ONE label, and so are
-  `acquireStream`'s lookup and replay sections; the release that follows SCLOSE / END is the separate CUT label
+* `Write`'s two critical sections are the two labels WROUTE (routing under `c.mu`) and WDELIVER (append+deliver
+  under `s.mu`) with the write pending in `Conn.pendW` in between; the label WRITE is the two back to back
+  (`write_is_route_then_deliver`).  `acquireStream`'s lookup and replay sections are ONE label (GET); the release that follows SCLOSE / END is the separate CUT label
   (the driver issues it); a response that completes a stream ends the exchange in the WRITE label itself;
 * the temporary "exclusive replay" entry of `acquireStream` does not persist in a state (GET is atomic);
 * `select`s on `c.done` that race with a ready channel (`incoming` has room) are resolved as: POST without
   calls ⇒ 202; POST with calls / GET on a closed session ⇒ registered / attached, then released at once;
 * not modelled: the SEP-2575 `overrideStatus` path (protocol-level JSON-RPC errors under 2026-07-28),
-  purging in the store, `EventStore` methods returning errors.
+  `EventStore.Append` / `Open` returning errors (`After` failing — purged, unknown stream, closed session — is modelled).
 -/
 namespace Resume
 
@@ -119,6 +121,14 @@ structure Cfg where
   noSession    : Bool               -- `sessionID == ""`
 deriving DecidableEq, Repr
 
+/-- a `Write` between its two critical sections: routed (under `c.mu`), not yet appended / delivered (under the
+stream's `mu`).  `sid` names the stream *object* the routing section picked. -/
+structure PendW (α : Type) where
+  msg    : Msg α
+  ctx    : Option ReqId
+  ctxNew : Bool
+  sid    : SId
+
 structure Conn (α : Type) where
   cfg        : Cfg
   streams    : List (Stream α)                        -- `c.streams` (at most one entry per id)
@@ -128,6 +138,9 @@ structure Conn (α : Type) where
   exs        : List (Exch α)                          -- HTTP exchanges, index = ExId
   nextSid    : SId
   hist       : SId → Option (List ReqId × Bool)       -- ghost: (calls, listen) of every registered stream
+  born       : SId → Option ExId := fun _ => none     -- ghost: the POST exchange that registered the stream
+  purged     : SId → Nat := fun _ => 0                -- event store: entries evicted from the front of each log (`dataList.first`)
+  pendW      : List (PendW α) := []                   -- writes between their routing and their delivery section
 
 /-- `Connect`: the standalone stream exists from the start and is opened in the store. -/
 def init {α} (cfg : Cfg) : Conn α :=
@@ -149,6 +162,9 @@ inductive Label (α : Type) where
   | get (hdr : Hdr) (ver : Ver) (budget : Option Nat)
   | sclose (req : ReqId) (retry : Bool)
   | «end»
+  | evict (sid : SId) (n : Nat)      -- the event store drops the entries before index `n` of a stream's log (`MemoryEventStore.purge`)
+  | wroute (msg : Msg α) (ctx : Option ReqId) (ctxNew : Bool)   -- `Write`, first critical section (`c.mu`): routing
+  | wdeliver (i : Nat)               -- `Write`, second critical section (the stream's `mu`) of the `i`-th pending write
 deriving Repr
 
 /-- what `Write` returned -/
@@ -253,6 +269,7 @@ def register {α} (c : Conn α) (calls : List ReqId) (listen : Bool) (ver : Ver)
            reqStreams := fun r => if r ∈ calls then some c.nextSid else c.reqStreams r,
            exs := c.exs ++ [{ kind := if useSSE c listen then .sse else .json, budget := budget, stream := c.nextSid, «from» := 0 }],
            hist := fun k => if k = c.nextSid then some (calls, listen) else c.hist k,
+           born := fun k => if k = c.nextSid then some c.exs.length else c.born k,
            store := postStore c listen ver }
 
 def postNew {α} (c : Conn α) (calls : List ReqId) (listen : Bool) (ver : Ver) (budget : Option Nat) : Conn α :=
@@ -343,6 +360,36 @@ def writeR {α} (c : Conn α) (msg : Msg α) (ctx : Option ReqId) (ctxNew : Bool
     if c.isDone then (eraseResp c msg, .broken)                -- "session is closed"
     else writeTo (eraseResp c msg) s msg ctx ctxNew
 
+/-! ### WRITE in two steps: WROUTE (under `c.mu`) and WDELIVER (under the stream's `mu`)
+
+Between the two sections anything may happen: the stream may be detached, re-attached by a resume, closed, even
+completed and deleted by another write; the session may be closed.  The delivery section works on the stream
+object the routing section picked (`PendW.sid`); if that object is no longer registered its `done` channel is gone,
+so nothing is delivered, but the message is still appended to the store. -/
+
+/-- first critical section: routing decision, `delete(c.requestStreams, responseTo)`, `sessionClosed := c.isDone` -/
+def wrouteR {α} (c : Conn α) (msg : Msg α) (ctx : Option ReqId) (ctxNew : Bool) : Conn α × Res :=
+  if msg.isCall && (c.cfg.stateless || c.cfg.noSession) then (c, .rejected) else
+  match route c msg ctx with
+  | none => (eraseResp c msg, .rejected)
+  | some s =>
+    if c.isDone then (eraseResp c msg, .broken)
+    else ({ eraseResp c msg with pendW := c.pendW ++ [⟨msg, ctx, ctxNew, s.id⟩] }, .na)
+
+/-- the delivery section on a stream object that was completed and deleted meanwhile: store only -/
+def orphanWrite {α} (c : Conn α) (pw : PendW α) : Conn α × Res :=
+  ({ c with store := if wUse c pw.ctxNew then appendLog pw.sid (some ⟨pw.msg, pw.ctx⟩) c.store else c.store },
+   if wUse c pw.ctxNew then .ok else .rejected)
+
+/-- second critical section of the `i`-th pending write -/
+def wdeliverR {α} (c : Conn α) (i : Nat) : Conn α × Res :=
+  match c.pendW[i]? with
+  | none => (c, .na)
+  | some pw =>
+    match findStream pw.sid c.streams with
+    | some s => writeTo { c with pendW := c.pendW.eraseIdx i } s pw.msg pw.ctx pw.ctxNew
+    | none => orphanWrite { c with pendW := c.pendW.eraseIdx i } pw
+
 /-! ### GET (`serveGET` / `acquireStream`) -/
 
 def Hdr.sid : Hdr → SId
@@ -362,10 +409,14 @@ def Hdr.has : Hdr → Bool
 def toReplay {α} (log : List (Option (Item α))) («from» : Nat) : List (Item α) :=
   (log.drop «from»).filterMap id
 
-/-- `EventStore.After`; `none` = it failed (unknown stream, or `SessionClosed` removed the session) -/
+/-- `EventStore.After`; `none` = it failed: unknown stream, `SessionClosed` removed the session, or the entries
+right after the resume point were evicted (`ErrEventsPurged`: `index + 1 < dataList.first`) -/
 def replayItems {α} (c : Conn α) (sid : SId) («from» : Nat) : Option (List (Item α)) :=
   if c.cfg.hasStore then
-    if c.isDone then none else (c.store sid).map (fun log => toReplay log «from»)
+    if c.isDone then none else
+    match c.store sid with
+    | none => none
+    | some log => if «from» < c.purged sid then none else some (toReplay log «from»)
   else some []
 
 /-- replay loop: ids are `from, from+1, …` counted over the replayed items; stops at the first failed write -/
@@ -408,6 +459,14 @@ def get {α} (c : Conn α) (hdr : Hdr) (ver : Ver) (budget : Option Nat) : Conn 
       | none => statusEx c 400                                         -- `After` failed
       | some items => getGo c hdr.sid hdr.from ver budget items
 
+/-! ### EVICT (`MemoryEventStore.purge`, run by any `Append` / `SetMaxBytes` of the shared store) -/
+
+/-- the store forgets the entries of `sid` before index `n` (it never forgets what is not there yet, and never
+un-forgets).  `store` keeps the full append log: it is the ground truth the theorems speak about; what the
+store can still replay is `log.drop (purged sid)`. -/
+def evict {α} (c : Conn α) (sid : SId) (n : Nat) : Conn α :=
+  { c with purged := fun k => if k = sid then max (c.purged k) (min n ((c.store k).getD []).length) else c.purged k }
+
 /-! ### SCLOSE (`CloseSSEStream` → `stream.close`) and END (`Close`) -/
 
 def sclose {α} (c : Conn α) (req : ReqId) (retry : Bool) : Conn α :=
@@ -431,6 +490,9 @@ def stepR {α} (c : Conn α) : Label α → Conn α × Res
   | .get hdr ver budget => (get c hdr ver budget, .na)
   | .sclose req retry => (sclose c req retry, .na)
   | .end => ({ c with isDone := true }, .na)
+  | .evict sid n => (evict c sid n, .na)
+  | .wroute msg ctx ctxNew => wrouteR c msg ctx ctxNew
+  | .wdeliver i => wdeliverR c i
 
 def step {α} (c : Conn α) (l : Label α) : Conn α := (stepR c l).1
 
